@@ -35,6 +35,12 @@ CLAIMS = {
         "note": SCREEN_NOTE + " The cursor rule is not evaluated for frames cut by the height.",
         "technique": "runtime monitoring: terminal-emulator oracle with scrollback on swept terminal sizes",
     },
+    "C15": {
+        "text": "Exploration with an exhaustive slice: every Display impl of the formatting wrappers is compared with an independent reference (integer arithmetic for grouping, units and durations; std's {:.N} for decimal rounding) on powers of 2/10 and unit boundaries +-2, boundary-biased and random-bit-pattern floats at precisions 0..=25, and every HumanDuration unit boundary / n+1/2 switch point +-{0,1ns,1ms} (that slice is enumerated completely); monotonicity of HumanDuration on sorted samples; every call under catch_unwind in release and debug (overflow checks) builds.",
+        "design_ref": "DESIGN.md §4 C15",
+        "note": "Trusted: the reference renderers in harness/src/props/c15.rs and std's float formatting. Byte formatters: above 2^53 the value's f64 image is accepted for the choice of unit and the last digit (the statement does not fix the arithmetic).",
+        "technique": "runtime monitoring: differential oracle against an independent reference renderer, panics caught",
+    },
 }
 
 ALL = [f"C{n:02d}" for n in range(1, 20)]
